@@ -359,7 +359,7 @@ macro_rules! int_pool {
                     "qe": (1..=nr).map(|r| (self.val(r) == x) as i64).collect::<Vec<_>>(),
                     "cmp": (1..=nr).map(|r| ord(x.cmp(self.val(r)))).collect::<Vec<_>>(),
                     "pmc": (1..=nr).map(|r| ord(self.val(r).cmp(x))).collect::<Vec<_>>(),
-                    "hs": (1..=nr).map(|r| h64(self.val(r))).collect::<Vec<_>>(),
+                    "h": h64(x),
                 });
                 let tw: Vec<Value> = Self::twins(x)
                     .iter()
@@ -860,7 +860,7 @@ impl Pool for PoolF {
             "cmp": self.regs.iter().map(|r| x.pcmp(r)).collect::<Vec<_>>(),
             "pmc": self.regs.iter().map(|r| r.pcmp(x)).collect::<Vec<_>>(),
             "tcmp": self.regs.iter().map(|r| x.tcmp(r)).collect::<Vec<_>>(),
-            "hs": self.regs.iter().map(|_| json!([])).collect::<Vec<_>>(),
+            "h": [],
         });
         let tw: Vec<Value> = x
             .twins()
@@ -1079,7 +1079,7 @@ impl Pool for PoolQ {
             "qe": self.regs.iter().map(|r| r.eq(x)).collect::<Vec<_>>(),
             "cmp": self.regs.iter().map(|r| x.cmp(r)).collect::<Vec<_>>(),
             "pmc": self.regs.iter().map(|r| r.cmp(x)).collect::<Vec<_>>(),
-            "hs": self.regs.iter().map(|r| r.hash()).collect::<Vec<_>>(),
+            "h": x.hash(),
         });
         let tw: Vec<Value> = x
             .twins()
@@ -1120,6 +1120,7 @@ pub fn run_history(case: &Value, window: &mut dyn FnMut(&mut dyn FnMut()) -> Val
     let nr = case["nr"].as_u64().unwrap_or(4) as usize;
     // the register file itself belongs to the harness (built outside the recorded window)
     let mut pool = make_pool(kind, nr);
+    let h0 = pool.fin()["hs"][0].clone();
     let mut obs: Vec<Value> = Vec::new();
     let mut harness_fault = false;
     for s in case["steps"].as_array().map(|a| a.as_slice()).unwrap_or(&[]) {
@@ -1147,6 +1148,7 @@ pub fn run_history(case: &Value, window: &mut dyn FnMut(&mut dyn FnMut()) -> Val
     let mut ev = case.clone();
     ev["obs"] = json!(obs);
     ev["fin"] = fin;
+    ev["h0"] = h0;
     ev["alend"] = al_end;
     if harness_fault {
         ev["fault"] = json!(true);
